@@ -33,6 +33,7 @@ class StringHooks(FullHooks):
 
     def external(self, I, d, args, kwargs, site):
         if d == "sqlglot.parse":
+            self.parse_arg = (args[0] if args else None, kwargs.get("read"))
             a = node("Insert", "part_a")
             b = node("Update", "part_b")
             semi = node("Semicolon", "comment_only")
@@ -45,7 +46,7 @@ def rule_execute_string(ctx):
     prog = ctx.prog
     ctx.analysed("conn.FakeSnowflakeConnection.execute_string", "conn.FakeSnowflakeConnection.cursor")
     for mode in (None, "duckdb.CatalogException"):
-        for dict_cursor in (False, True):
+        for dict_cursor, remove_comments in ((False, False), (True, False), (False, True)):
             hooks, sessions = [], []
 
             def fac():
@@ -53,11 +54,14 @@ def rule_execute_string(ctx):
                 hooks.append(h)
                 return h
 
-            def run(I, dict_cursor=dict_cursor):
+            def run(I, dict_cursor=dict_cursor, remove_comments=remove_comments):
                 duck, conn, cur = make_session()
                 sessions.append(conn)
                 cc = Ext("snowflake.connector.cursor.DictCursor" if dict_cursor else "snowflake.connector.cursor.SnowflakeCursor")
-                return I.call(I.getattr(conn, "execute_string"), [Sym("SQL_TEXT", typ="str", truthy=True)], {"cursor_class": cc}, None)
+                kw = {"cursor_class": cc}
+                if remove_comments:
+                    kw["remove_comments"] = Const(True)
+                return I.call(I.getattr(conn, "execute_string"), [Sym("SQL_TEXT", typ="str", truthy=True)], kw, None)
 
             for p, h, conn in zip(explore(prog, fac, run, max_paths=64), hooks, sessions):
                 texts = [e[1] for e in p.effects if e[0] == "parse-user"]
@@ -69,6 +73,17 @@ def rule_execute_string(ctx):
                 dialects = [t.origin[2] if isinstance(t, Sym) and t.origin and t.origin[0] == "sql" and len(t.origin) > 2 else None for t in texts]
                 news = [e for e in p.effects if e[0] == "new" and e[1].endswith("cursor.FakeSnowflakeCursor")]
                 if mode is None:
+                    # the script reaches the statement splitter as given: only the parser knows where literals and comments end
+                    parg, pread = getattr(h, "parse_arg", (None, None))
+                    okp = isinstance(parg, Sym) and parg.tag == "SQL_TEXT" and isinstance(pread, Const) and pread.v == "snowflake"
+                    ctx.ob("C16.a", f"the script text reaches the Snowflake parser unmodified (remove_comments={remove_comments})", okp,
+                           "fakesnow/conn.py", "" if okp else f"{tagof(parg)[:70]} read={tagof(pread)}")
+                    if not okp:
+                        ctx.violation("C16.a", "conn", "FakeSnowflakeConnection.execute_string", f"script pre-processed before parsing (remove_comments={remove_comments})",
+                                      "fakesnow/conn.py",
+                                      f"execute_string hands `{tagof(parg)[:70]}` (read={tagof(pread)}) to the statement splitter instead of the caller's "
+                                      f"text parsed as Snowflake SQL: textual pre-processing cannot tell `--`, `/*` or `;` inside a string literal from "
+                                      f"a comment or a separator")
                     ok = p.outcome == "return" and rendered == ["part_a", "part_b"]
                     ctx.ob("C16.a", f"execute_string executes exactly the two statements, in order (dict={dict_cursor})", ok,
                            "fakesnow/conn.py", str(rendered))
